@@ -188,6 +188,10 @@ def distribution(cases, results):
         d["atoms_hist"][k] = d["atoms_hist"].get(k, 0) + 1
         if c.get("k") == "uf":
             d["uf_cases"] = d.get("uf_cases", 0) + 1
+            if has_cycle(c["a"]):
+                d["uf_a_has_pure_cycle"] = d.get("uf_a_has_pure_cycle", 0) + 1
+            if has_cycle(c["acc"]):
+                d["uf_acc_has_pure_cycle"] = d.get("uf_acc_has_pure_cycle", 0) + 1
             if r["bot"]:
                 d["a_bottom"] += 1
                 if c["a"]:
@@ -230,16 +234,62 @@ def gen_forest(rng, u=UF_U):
     return out
 
 
+def gen_cyclic(rng, u=UF_U):
+    """a parent map with one or two PURE cycles (lengths 2..4: every member's parent is the next
+    member, no self-parent root -- accepted by UnionFind::new, and find closes such loops on the
+    fly) plus a forest on the remaining items.  No edge leads INTO a cycle from outside (a tail
+    into a cycle is a rho shape on which find does not terminate; excluded, as for C04)."""
+    items = rng.shuffle(list(range(u)))
+    out = {}
+    pos = 0
+    for _ in range(rng.range(1, 2)):
+        ln = rng.range(2, 4)
+        if pos + ln > u:
+            break
+        cyc = items[pos:pos + ln]
+        pos += ln
+        for i, x in enumerate(cyc):
+            out[x] = cyc[(i + 1) % ln]
+    rest = sorted(items[pos:])
+    chosen = []
+    for k in rest:
+        r = rng.below(5)
+        if r == 0:
+            continue                      # no entry: its own root
+        smaller = [x for x in rest if x < k]
+        if r == 1 or not smaller:
+            p = k
+        else:
+            p = rng.choice(smaller)       # parent < key among non-cycle items: acyclic
+        out[k] = p
+        chosen.append(k)
+    return [[k, out[k]] for k in sorted(out)]
+
+
+def has_cycle(ps):
+    par = {k: p for k, p in ps}
+    for k in par:
+        x, seen = k, set()
+        while x in par and par[x] != x and x not in seen:
+            seen.add(x)
+            x = par[x]
+        if x in seen:
+            return True
+    return False
+
+
 def gen_uf_cases(rng, tier, n):
     cases = []
     for i in range(n):
         r = rng.below(10)
         if r == 0:
             a = [[k, k] for k in sorted(rng.sample(list(range(UF_U)), rng.below(4)))]   # bottom, not Default
+        elif r < 5:
+            a = gen_cyclic(rng)
         else:
             a = gen_forest(rng)
-        r = rng.below(3)
-        acc = json.loads(json.dumps(a)) if r == 0 else gen_forest(rng)
+        r = rng.below(4)
+        acc = json.loads(json.dumps(a)) if r == 0 else (gen_cyclic(rng) if r == 1 else gen_forest(rng))
         cases.append({"k": "uf", "rep": "hash" if i % 2 == 0 else "btree", "u": UF_U, "a": a, "acc": acc,
                       "ty": "UnionFind", "src": "rnd"})
     return cases
